@@ -191,3 +191,99 @@ def replay(scn):
     finally:
         np.seterr(**old)
     return dict(violations=viol, calls=calls)
+
+
+# ---------------------------------------------------------------- code -> spec: the repository's own reduction tests, recorded
+def post(tier, seed, ctx):
+    """run tests/test_transformations.py under the recorder plugin and validate every recorded reduction call against the
+    specification: structure (dims, labels, metadata) inside TLC, values from the fibres TLC prints, evaluated with NumPy"""
+    import json
+    import os
+    import re
+    import subprocess
+    import sys
+    from .. import tlc as T
+    repo = os.environ.get("VERIF_REPO", "/repo")
+    out = os.path.join(T.WORK, "C08_recorded.ndjson")
+    for f in (out, out + ".stats"):
+        if os.path.exists(f):
+            os.remove(f)
+    env = dict(os.environ, DIMARRAY_VERIF="1", VERIF_TRACE_OUT=out, PYTHONPATH=T.VERIF + os.pathsep + repo)
+    subprocess.run([sys.executable, "-m", "pytest", "-q", "-p", "no:cacheprovider", "-p", "harness.pytest_recorder", "tests/test_transformations.py"],
+                   cwd=repo, env=env, stdout=subprocess.DEVNULL, stderr=subprocess.DEVNULL, timeout=900)
+    if not os.path.exists(out):
+        raise T.TLCError("the recorder produced no trace file")
+    events = [json.loads(l) for l in open(out)]
+    stats = json.load(open(out + ".stats"))
+    if len(events) < 100:
+        raise T.TLCError("only %d reduction calls recorded from the repository's tests" % len(events))
+    # negative control: a recorded event whose logged dims are permuted must be rejected
+    controls = []
+    for e in events:
+        if e["out"]["ok"] and len(e["out"]["val"]["dims"]) == 1:
+            c = json.loads(json.dumps(e))
+            c["id"] = -e["id"]
+            c["out"]["val"]["dims"] = ["not_" + c["out"]["val"]["dims"][0]]
+            controls.append(c)
+            if len(controls) >= 10:
+                break
+    path = os.path.join(T.WORK, "C08_recorded_all.ndjson")
+    with open(path, "w") as f:
+        for e in events + controls:
+            f.write(json.dumps({k: e[k] for k in ("id", "op", "in", "out")}) + "\n")
+    cfg = os.path.join(T.WORK, "C08_ops.cfg")
+    T.write_cfg(cfg, spec="TSpec")
+    outp = os.path.join(T.WORK, "C08_ops.out")
+    res = T.run_tlc("TraceOps", cfg, "C08_ops", env_extra={"TRACE_FILE": path}, keep_stdout=outp, timeout=1500)
+    if "No error has been found" not in res["raw_tail"]:
+        raise T.TLCError("TraceOps run failed: " + res["raw_tail"][-1500:])
+    fibres, rej = {}, {}
+    with open(outp) as f:
+        for line in f:
+            m = re.match(r'<<"F", (-?\d+), (".*")>>', line)
+            if m:
+                fibres[int(m.group(1))] = json.loads(json.loads(m.group(2)))
+                continue
+            m = re.match(r'<<"X", (-?\d+), "([^"]*)", (".*")>>', line)
+            if m:
+                rej[int(m.group(1))] = m.group(2)
+    if any(c["id"] in fibres for c in controls):
+        raise T.TLCError("a corrupted control event was accepted by TraceOps")
+    ctx.states += res["distinct"]
+    ctx.transitions += res["states"]
+    ok = 0
+    old = np.seterr(all="ignore")
+    try:
+        for e in events:
+            what = None
+            if e["id"] in rej:
+                what = "recorded call %s(axis=%s, skipna=%s) of the repository's tests disagrees with the specification in clause '%s': logged %s" % (
+                    e["in"]["func"], e["in"]["red"], e["in"]["skipna"], rej[e["id"]], json.dumps(e["out"])[:300])
+            elif e["id"] not in fibres:
+                raise T.TLCError("event %d was not judged" % e["id"])
+            else:
+                vals = [float(v) if not isinstance(v, bool) else v for v in e["input_values"]]
+                func = e["in"]["func"]
+                for term, got in zip(fibres[e["id"]], e["values"]):
+                    fv = [vals[c - 1] if c > 0 else float("nan") for c in term["fib"]]
+                    if term["nan"] and func not in ("all", "any"):
+                        want = float("nan")
+                    elif not fv:
+                        want = _EMPTY.get(func, None if func in ("all", "any", "min", "max", "ptp") else float("nan"))
+                    else:
+                        want = getattr(np, func)(np.array(fv, dtype=float))
+                    if not _close(want, float(got) if not isinstance(got, bool) else got):
+                        what = "recorded call %s(axis=%s, skipna=%s): value %r, NumPy on the specification's fibre %s gives %r" % (
+                            func, e["in"]["red"], e["in"]["skipna"], got, fv, want)
+                        break
+            if what:
+                ctx.violations.append(dict(what=what, sig="recorded-test/reduce/%s/red=%s/skipna=%s" % (e["in"]["func"], e["in"]["red"], e["in"]["skipna"]),
+                                           variant="recorded", scenario=dict(trace_event=e)))
+            else:
+                ok += 1
+    finally:
+        np.seterr(**old)
+    ctx.traces += ok
+    ctx.extra["trace_validation"] = dict(source="tests/test_transformations.py run under harness/pytest_recorder.py", calls_seen=stats["seen"],
+                                         recorded=len(events), not_abstractable=stats["not_abstractable"], accepted=ok,
+                                         corrupted_controls_rejected=len(controls))
